@@ -13,23 +13,42 @@ C19 — executable model of the code that exists.
   modules/caddyhttp/matchers.go    MatchHost's host extraction (SplitHostPort, else trim one `[` / `]`),
                                    which decides the site a request is routed to.
 
-Go strings are bytes; all names here are ASCII (the driver rejects bytes ≥ 0x80), so
-`strings.ToLower` / `strings.EqualFold` are their ASCII restrictions.
+Names are sequences of SYMBOLS, one `UInt8` each: 0–127 are the ASCII bytes; 128 = `ſ` U+017F
+(LATIN SMALL LETTER LONG S), 129 = `K` U+212A (KELVIN SIGN), 130 = `É`, 131 = `é`.  The driver
+decodes UTF-8 into symbols and rejects every other non-ASCII byte sequence; all delimiters the code
+looks for (`.`, `*`, `:`, `[`, `]`) are ASCII and UTF-8 is self-synchronising, so Go's byte-wise
+`Split`/`SplitHostPort`/`==`/map keys act on symbol sequences exactly as on the bytes.  On this
+alphabet `strings.ToLower` (what certmagic.MatchWildcard uses) and `strings.EqualFold` (what the
+strict check and the host matcher use) are DIFFERENT equivalences: `ToLower("ſ") = "ſ"` but
+`EqualFold("ſ", "s")` (Unicode simple folding: s ↔ S ↔ ſ, k ↔ K ↔ K).
 -/
 import CaddyModel.Util.Hex
 import CaddyModel.Gen.Consts
 
 namespace CaddyModel.C19
 
-/-! ## Go `strings` on ASCII bytes -/
+/-! ## Go `strings` on the symbol alphabet -/
 
-def lowerByte (b : UInt8) : UInt8 := if 65 ≤ b ∧ b ≤ 90 then b + 32 else b
+def symLongS : UInt8 := 128
+def symKelvin : UInt8 := 129
+def symEacuteUp : UInt8 := 130
+def symEacute : UInt8 := 131
 
-/-- `strings.ToLower` (ASCII) -/
+/-- `unicode.ToLower` of one symbol: `A–Z` ↦ `a–z`, `K` ↦ `k`, `É` ↦ `é`; `ſ` is already lower case -/
+def lowerByte (b : UInt8) : UInt8 :=
+  if 65 ≤ b ∧ b ≤ 90 then b + 32 else if b = 129 then 107 else if b = 130 then 131 else b
+
+/-- representative of the symbol's `unicode.SimpleFold` orbit: as `lowerByte`, and `ſ` ↦ `s` -/
+def foldByte (b : UInt8) : UInt8 := if b = 128 then 115 else lowerByte b
+
+/-- `strings.ToLower` -/
 def lower (s : Bytes) : Bytes := s.map lowerByte
 
-/-- `strings.EqualFold` (ASCII): equal after folding `A–Z` onto `a–z` -/
-def equalFold (a b : Bytes) : Bool := lower a == lower b
+/-- both strings mapped to orbit representatives, symbol by symbol -/
+def foldKey (s : Bytes) : Bytes := s.map foldByte
+
+/-- `strings.EqualFold`: same length and symbol-wise in the same simple-fold orbit -/
+def equalFold (a b : Bytes) : Bool := foldKey a == foldKey b
 
 def cStar : UInt8 := 42
 def cDot : UInt8 := 46
